@@ -36,7 +36,38 @@ int hwloc_bitmap_compare_inclusion(hwloc_const_bitmap_t a, hwloc_const_bitmap_t 
   if (x & y) return HWLOC_BITMAP_INTERSECTS;
   return HWLOC_BITMAP_DIFFERENT;
 }
-/* info lists are not part of what is decided here: the harness only uses empty info lists */
-int hwloc__add_info(struct hwloc_infos_s *infos, const char *name, const char *value) { (void)infos; (void)name; (void)value; __CPROVER_assert(0, "model: no infos in these harnesses"); return 0; }
-void hwloc__free_infos(struct hwloc_infos_s *infos) { (void)infos; }
+/* Info lists: a small executable model of hwloc__add_info / hwloc__free_infos (topology.c) that keeps what cpukinds.c can
+ * observe: add appends the pair to the array (capacity INFOCAP, allocated on first use; the strings are not copied -- the
+ * harness compares pairs by the identity of pool strings with pairwise distinct contents); free releases the array and,
+ * LIKE THE REAL ONE, leaves count and the dangling array pointer in place. */
+#ifndef INFOCAP
+#define INFOCAP 6
+#endif
+int hwloc__add_info(struct hwloc_infos_s *infos, const char *name, const char *value)
+{
+#ifdef CK_NO_INFOS
+  /* jobs that only decide the partition use empty info lists everywhere: no pair can ever be added */
+  (void)infos; (void)name; (void)value; __CPROVER_assert(0, "model: no infos in this harness"); return 0;
+#endif
+  if (!infos->array) { infos->array = malloc(INFOCAP * sizeof(*infos->array)); __CPROVER_assume(infos->array != 0); infos->allocated = INFOCAP; }
+  __CPROVER_assert(infos->count < INFOCAP, "model: info array capacity large enough");
+  infos->array[infos->count].name = (char *)name; infos->array[infos->count].value = (char *)value;
+  infos->count++;
+  return 0;
+}
+void hwloc__free_infos(struct hwloc_infos_s *infos) { free(infos->array); }
+/* memmove specialised to the element type of the kinds array (trusted stub of libc memmove) */
+static void *verif_memmove_kinds(void *d, const void *s, size_t n)
+{
+  struct hwloc_internal_cpukind_s *dd = d; const struct hwloc_internal_cpukind_s *ss = s; size_t k, cnt = n / sizeof(*dd);
+  __CPROVER_assert(n % sizeof(*dd) == 0, "memmove: whole elements");
+  __CPROVER_assert(cnt == 0 || (__CPROVER_r_ok(ss, n) && __CPROVER_w_ok(dd, n)), "memmove: source readable and destination writable for n bytes");
+  __CPROVER_assert(cnt <= 8, "model: at most 8 elements moved");
+  for (k = 0; k < 8; k++) if (k < cnt) dd[k] = ss[k];        /* callers move downwards (dd < ss): ascending copy is overlap safe */
+  __CPROVER_assert(cnt == 0 || dd <= ss, "model: downward move");
+  return d;
+}
+/* the root object (hwloc_get_root_obj() is hwloc_get_obj_by_depth(topology, 0, 0), traversal.c) */
+struct hwloc_obj verif_root;
+hwloc_obj_t hwloc_get_obj_by_depth(hwloc_topology_t t, int depth, unsigned idx) { (void)t; __CPROVER_assert(depth == 0 && idx == 0, "model: only the root is looked up"); return &verif_root; }
 #endif
